@@ -599,17 +599,6 @@ func check(c Case) ev.Verdict {
 		}
 	}
 	v := ev.Verdict{NonTrivial: sharedApply && overlap >= 3}
-	if c.Kind == "together" {
-		// non-trivial: at least six goroutines start with the same call
-		same := 0
-		for _, th := range c.Threads {
-			if len(th) > 0 && th[0].Fn == c.Threads[0][0].Fn && th[0].A == c.Threads[0][0].A && th[0].B == c.Threads[0][0].B {
-				same++
-			}
-		}
-		v.NonTrivial = same >= 6
-		v.Classes = append(v.Classes, "first-call="+c.Threads[0][0].Fn, fmt.Sprintf("first-call-argument-bytes=%dk", (len(c.Bufs[c.Threads[0][0].A])+len(c.Bufs[c.Threads[0][0].B]))/2048*2))
-	}
 	v.Classes = []string{fmt.Sprintf("goroutines=%d", len(c.Threads)), fmt.Sprintf("gomaxprocs=%d", c.Procs), fmt.Sprintf("rounds=%d", c.Rounds),
 		fmt.Sprintf("calls-per-round=%d", 20*(ncalls/20)), fmt.Sprintf("functions-overlapping=%d", overlap)}
 	if sharedApply {
@@ -620,6 +609,17 @@ func check(c Case) ev.Verdict {
 	}
 	if c.Defaults != nil {
 		v.Classes = append(v.Classes, "package-defaults-assigned-first")
+	}
+	if c.Kind == "together" {
+		// non-trivial: at least six goroutines start with the same call
+		same := 0
+		for _, th := range c.Threads {
+			if len(th) > 0 && th[0].Fn == c.Threads[0][0].Fn && th[0].A == c.Threads[0][0].A && th[0].B == c.Threads[0][0].B {
+				same++
+			}
+		}
+		v.NonTrivial = same >= 6
+		v.Classes = append(v.Classes, "first-call="+c.Threads[0][0].Fn, fmt.Sprintf("first-call-argument-bytes=%dk", (len(c.Bufs[c.Threads[0][0].A])+len(c.Bufs[c.Threads[0][0].B]))/2048*2))
 	}
 	return v
 }
